@@ -77,6 +77,7 @@ func VerifC19_DriverGuessAndCheck() {
 	}
 
 	verifSched(verifParam("c19sched", 1))
+	verifSchedPreempt(verifParam("c19dpreempt", 0) == 1)
 	res, err := Minimize(p, []float64{0}, settings, &GuessAndCheck{Rander: rnd})
 	verifAssert(verifSchedDrain() == 0, "Minimize leaves no goroutine behind")
 	verifAssert(err == nil, "no error")
@@ -125,6 +126,12 @@ type verifC19dObj struct {
 	fcalls, gcalls, hcalls int
 	special                int // 0 none; 1: +Inf, 2: NaN, 3: -Inf returned by Func call specialAt
 	specialAt              int
+	// gset/hset non-nil: the i-th gradient (Hessian) value is CASE-SPLIT over the
+	// set (at the time of the call) instead of being symbolic. Used for the
+	// methods whose direction and step computations divide by gradient
+	// differences (BFGS, LBFGS, CG, Newton): points and directions are then
+	// concrete, the objective values stay symbolic.
+	gset, hset []float64
 }
 
 func verifC19dNewObj(tag string) *verifC19dObj {
@@ -168,6 +175,9 @@ func (o *verifC19dObj) grad(g, x []float64) {
 	verifAssume(i < verifC19dCap)
 	o.gcalls++
 	o.gx[i] = x[0]
+	if o.gset != nil {
+		o.gv[i] = o.gset[verifChoose("gval"+string(rune('0'+i)), 0, len(o.gset)-1)]
+	}
 	v := o.gv[i]
 	for j := 0; j < i; j++ {
 		verifAssume(verifImplies(o.gx[j] == x[0], o.gv[j] == v))
@@ -182,6 +192,9 @@ func (o *verifC19dObj) hess(h *mat.SymDense, x []float64) {
 	verifAssume(i < verifC19dCap)
 	o.hcalls++
 	o.hx[i] = x[0]
+	if o.hset != nil {
+		o.hv[i] = o.hset[verifChoose("hval"+string(rune('0'+i)), 0, len(o.hset)-1)]
+	}
 	v := o.hv[i]
 	for j := 0; j < i; j++ {
 		verifAssume(verifImplies(o.hx[j] == x[0], o.hv[j] == v))
@@ -470,6 +483,8 @@ type verifC19dOpt struct {
 	recHi    int
 	special  int // 0..special: Func call 0 returns 0 a symbolic value, 1 +Inf, 2 NaN, 3 -Inf
 	fconv    int // 0: NeverTerminate; 1: also FunctionConverge{Iterations: 1, Absolute: arbitrary >= 0}
+	gset     []float64 // non-nil: gradient values case-split over this set, x0 = 0, InitValues gradient from the set
+	hset     []float64 // non-nil: Hessian values case-split over this set
 }
 
 const (
@@ -559,6 +574,10 @@ func verifC19dLocal(kind int, o verifC19dOpt) {
 	conc := verifChoose("concurrent", 0, o.concHi)
 	init := verifChoose("initvalues", 0, o.initHi)
 	obj := verifC19dNewObj("o")
+	obj.gset, obj.hset = o.gset, o.hset
+	if o.gset != nil {
+		c.x0 = 0
+	}
 	if init == 0 {
 		obj.special = verifChoose("special", 0, o.special)
 	}
@@ -604,10 +623,17 @@ func verifC19dLocal(kind int, o verifC19dOpt) {
 		s.InitValues = &Location{F: c.initF}
 		if init >= 2 {
 			c.haveInitG, c.initG = true, verifFloat("initG")
+			if o.gset != nil {
+				c.initG = o.gset[verifChoose("initGval", 0, len(o.gset)-1)]
+			}
 			s.InitValues.Gradient = []float64{c.initG}
 		}
 		if init >= 3 {
-			s.InitValues.Hessian = mat.NewSymDense(1, []float64{verifFloat("initH")})
+			h := verifFloat("initH")
+			if o.hset != nil {
+				h = o.hset[verifChoose("initHval", 0, len(o.hset)-1)]
+			}
+			s.InitValues.Hessian = mat.NewSymDense(1, []float64{h})
 		}
 	}
 	p := Problem{Func: obj.f}
@@ -619,6 +645,7 @@ func verifC19dLocal(kind int, o verifC19dOpt) {
 	}
 
 	verifSched(verifParam("c19sched", 1))
+	verifSchedPreempt(verifParam("c19dpreempt", 0) == 1)
 	res, err := Minimize(p, []float64{c.x0}, s, method)
 	verifC19dCheck(res, err, obj, c)
 	if res != nil {
@@ -664,22 +691,25 @@ func VerifC19_DriverLinesearchScript() {
 	verifC19dLocal(verifC19dGDScript, verifC19dOpt{fLo: 3, fHi: 3, gHi: 1, itHi: 1, recLo: -2, recHi: -2})
 }
 
+// Gradient values of the harnesses with case-split gradients.
+var verifC19dGset = []float64{-2, 1, -0.5}
+
 // VerifC19_DriverBFGS: BFGS with Backtracking or Bisection.
 func VerifC19_DriverBFGS() {
 	l := verifParam("c19dlim", 2)
-	verifC19dLocal(verifC19dBFGS, verifC19dOpt{fLo: l, fHi: l + 1, gHi: l, itHi: l, initHi: 2, recLo: -2, recHi: -2})
+	verifC19dLocal(verifC19dBFGS, verifC19dOpt{fLo: l, fHi: l + 1, gHi: l, itHi: l, initHi: 2, recLo: -2, recHi: -2, gset: verifC19dGset})
 }
 
 // VerifC19_DriverLBFGS: LBFGS (Store 1..2) with Backtracking or Bisection.
 func VerifC19_DriverLBFGS() {
 	l := verifParam("c19dlim", 2)
-	verifC19dLocal(verifC19dLBFGS, verifC19dOpt{fLo: l, fHi: l + 1, gHi: l, itHi: l, initHi: 2, recLo: -2, recHi: -2})
+	verifC19dLocal(verifC19dLBFGS, verifC19dOpt{fLo: l, fHi: l + 1, gHi: l, itHi: l, initHi: 2, recLo: -2, recHi: -2, gset: verifC19dGset})
 }
 
 // VerifC19_DriverNewton: Newton (Hessian callbacks) with Backtracking or Bisection.
 func VerifC19_DriverNewton() {
 	l := verifParam("c19dlim", 2)
-	verifC19dLocal(verifC19dNewton, verifC19dOpt{fLo: l, fHi: l + 1, gHi: 1, hHi: l, itHi: l, initHi: 3, recLo: -2, recHi: -2})
+	verifC19dLocal(verifC19dNewton, verifC19dOpt{fLo: l, fHi: l + 1, gHi: 1, hHi: l, itHi: l, initHi: 3, recLo: -2, recHi: -2, gset: verifC19dGset, hset: []float64{2, -1}})
 }
 
 // VerifC19_DriverNelderMead: NelderMead (no gradient), limits 1..4 evaluations.
@@ -691,5 +721,201 @@ func VerifC19_DriverNelderMead() {
 // VerifC19_DriverCG: CG (FletcherReeves / PolakRibierePolyak; thorough all five variants).
 func VerifC19_DriverCG() {
 	l := verifParam("c19dlim", 2)
-	verifC19dLocal(verifC19dCG, verifC19dOpt{fLo: l + 1, fHi: l + 1, gHi: l, itHi: l, initHi: 2, recLo: -2, recHi: -2})
+	verifC19dLocal(verifC19dCG, verifC19dOpt{fLo: l + 1, fHi: l + 1, gHi: l, itHi: l, initHi: 2, recLo: -2, recHi: -2, gset: verifC19dGset})
+}
+
+// ---------------------------------------------------------------------------
+// Documented panics of Minimize / minimize.
+
+// verifC19dBad is a Method that misbehaves in one scripted way.
+type verifC19dBad struct {
+	kind int
+}
+
+var verifC19dBadErr = errors.New("verif: method cannot be used")
+
+func (m *verifC19dBad) Uses(has Available) (Available, error) {
+	if m.kind == 0 {
+		return Available{}, verifC19dBadErr
+	}
+	return Available{}, nil
+}
+
+func (m *verifC19dBad) Init(dim, tasks int) int {
+	if m.kind == 1 {
+		return tasks + 1
+	}
+	return 1
+}
+
+func (m *verifC19dBad) Run(operation chan<- Task, result <-chan Task, tasks []Task) {
+	t := tasks[0]
+	switch m.kind {
+	case 2:
+		t.Op = InitIteration
+	case 3:
+		t.Op = PostIteration
+	case 4:
+		t.Op = FuncEvaluation | MajorIteration // not an evaluation operation
+	default:
+		t.Op = MethodDone
+	}
+	operation <- t
+	for range result {
+	}
+	close(operation)
+}
+
+// verifC19dBadStatuser additionally implements Statuser, returning NotTerminated.
+type verifC19dBadStatuser struct {
+	verifC19dBad
+}
+
+func (m *verifC19dBadStatuser) Status() (Status, error) { return NotTerminated, nil }
+
+// VerifC19_DriverPanics: the panics Minimize documents, raised in the calling
+// goroutine: a method inconsistent with the problem (Uses returns an error; a
+// harness method and the real GradientDescent / Newton without Grad / Hess),
+// too many tasks returned by Method.Init, MethodDone sent by a method that is
+// not a Statuser or whose Status is NotTerminated, an undefined objective, an
+// empty initial point, and inconsistent InitValues. In every case Minimize
+// panics with an explicit message (no runtime fault) and leaves no goroutine
+// behind.
+func VerifC19_DriverPanics() {
+	kind := verifChoose("kind", 0, 12)
+	conc := verifChoose("concurrent", 0, 2)
+	f := func(x []float64) float64 { return 0 }
+	g := func(grad, x []float64) { grad[0] = 1 }
+	p := Problem{Func: f}
+	x0 := []float64{1}
+	s := &Settings{Concurrent: conc}
+	var m Method
+	want := ""
+	switch kind {
+	case 0:
+		m = &verifC19dBad{kind: 0}
+	case 1:
+		m, want = &verifC19dBad{kind: 1}, "optimize: too many tasks returned by Method"
+	case 2:
+		m, want = &verifC19dBad{kind: 5}, "optimize: method returned MethodDone but is not a Statuser"
+	case 3:
+		m, want = &verifC19dBadStatuser{verifC19dBad{kind: 5}}, "optimize: method returned MethodDone but a NotTerminated status"
+	case 4:
+		m = &GradientDescent{}
+	case 5:
+		m, p.Grad = &Newton{}, g
+	case 6:
+		m, p.Func, want = &NelderMead{}, nil, badProblem
+	case 7:
+		m, x0, want = &NelderMead{}, []float64{}, "optimize: impossible problem dimension"
+	case 8:
+		m, want = &NelderMead{}, "optimize: location specified in InitValues (only use InitX)"
+		s.InitValues = &Location{X: []float64{1}}
+	case 9:
+		m, p.Grad, want = &GradientDescent{}, g, "optimize: initial gradient does not match problem dimension"
+		s.InitValues = &Location{Gradient: []float64{1, 2}}
+	case 10:
+		m, p.Grad, want = &GradientDescent{}, g, "optimize: initial Hessian does not match problem dimension"
+		s.InitValues = &Location{Hessian: mat.NewSymDense(2, nil)}
+	case 11:
+		m, x0, want = &NelderMead{}, nil, "optimize: impossible problem dimension"
+	case 12:
+		// not a panic: a method that behaves (MethodDone with a terminal status
+		// would need a Statuser); control case with the real NelderMead and a
+		// function evaluation limit.
+		m = &NelderMead{}
+		s.FuncEvaluations = 1
+	}
+	verifSched(verifParam("c19sched", 1))
+	panicked, fault, msg := verifCatch(func() {
+		Minimize(p, x0, s, m)
+	})
+	verifAssert(verifSchedDrain() == 0, "no goroutine left behind")
+	if kind == 12 {
+		verifAssert(!panicked, "control: a well-formed call does not panic")
+		verifReach("end")
+		return
+	}
+	verifAssert(panicked && !fault, "Minimize panics with an explicit message")
+	if want != "" {
+		verifAssert(msg == want, "the documented panic message")
+	}
+	verifReach("end")
+}
+
+// VerifC19_DriverPanicsDistributor: a Method sending InitIteration,
+// PostIteration or a non-evaluation operation makes minimize panic in its
+// distributor goroutine. Natively such a panic cannot be recovered by the
+// caller (the process dies), so the native replay of this harness is a no-op:
+// the statement is checked by the engine only.
+func VerifC19_DriverPanicsDistributor() {
+	if !verifInEngine() {
+		return
+	}
+	kind := verifChoose("kind", 2, 4)
+	p := Problem{Func: func(x []float64) float64 { return 0 }}
+	verifSched(verifParam("c19sched", 1))
+	panicked, fault, _ := verifCatch(func() {
+		Minimize(p, []float64{1}, &Settings{}, &verifC19dBad{kind: kind})
+	})
+	verifAssert(panicked && !fault, "minimize panics with an explicit message")
+	verifReach("end")
+}
+
+// ---------------------------------------------------------------------------
+// Open violations (NOT in the check spec; see notes/C19_driver.md).
+
+// VerifC19_DriverLocalEarlyStop states the location clause of C19 without the
+// "at least one MajorIteration" proviso: when a limit stops a local method during
+// the evaluation of the initial point, the reported X is still a point the
+// objective was evaluated at and F its value.
+func VerifC19_DriverLocalEarlyStop() {
+	x0 := verifFloat("x0")
+	obj := verifC19dNewObj("o")
+	p := Problem{Func: obj.f, Grad: obj.grad}
+	var m Method = &NelderMead{}
+	if verifChoose("method", 0, 1) == 1 {
+		m = &GradientDescent{Linesearcher: &Backtracking{}, StepSizer: ConstantStepSize{Size: 1}}
+	}
+	verifSched(verifParam("c19sched", 1))
+	res, err := Minimize(p, []float64{x0}, &Settings{FuncEvaluations: 1, Converger: NeverTerminate{}}, m)
+	verifAssert(verifSchedDrain() == 0, "Minimize leaves no goroutine behind")
+	verifAssert(err == nil && res != nil, "no error")
+	if res == nil {
+		return
+	}
+	verifAssert(obj.fcalls == 1 && res.Stats.FuncEvaluations == 1 && res.Status == FunctionEvaluationLimit, "one evaluation, FunctionEvaluationLimit")
+	verifAssert(obj.fx[0] == x0, "the objective was evaluated at the initial point")
+	verifAssert(res.X[0] == obj.fx[0], "X is a point the objective was evaluated at")
+	verifAssert(res.F == obj.fv[0], "F is the objective value at X")
+	verifReach("end")
+}
+
+// VerifC19_DriverLocalStationaryStart: the documented GradStopThreshold ("the
+// threshold for stopping if the gradient norm gets too small", default 1e-12)
+// applied to the initial point: a start whose gradient is exactly zero stops
+// the run with GradientThreshold.
+func VerifC19_DriverLocalStationaryStart() {
+	x0 := verifFloat("x0")
+	obj := verifC19dNewObj("o")
+	obj.gset = []float64{0}
+	p := Problem{Func: obj.f, Grad: obj.grad}
+	var m Method
+	switch verifChoose("method", 0, 2) {
+	case 0:
+		m = &GradientDescent{}
+	case 1:
+		m = &BFGS{}
+	default:
+		m = &LBFGS{}
+	}
+	verifSched(verifParam("c19sched", 1))
+	res, err := Minimize(p, []float64{x0}, &Settings{FuncEvaluations: 3, Converger: NeverTerminate{}}, m)
+	verifAssert(verifSchedDrain() == 0, "Minimize leaves no goroutine behind")
+	verifAssert(res != nil, "a result is returned")
+	if res == nil {
+		return
+	}
+	verifAssert(res.Status == GradientThreshold && err == nil, "a stationary initial point stops the run with GradientThreshold")
+	verifReach("end")
 }
